@@ -25,6 +25,7 @@ type c09P struct {
 	Notify     bool   // an outside Notify
 	AfterStop  bool   // Notify/Callback issued after WaitStatus returned
 	HandlerCB  bool   // a call handler issues a callback and returns its result
+	BgCtx      bool   // the outside callbacks use context.Background() (a context that can never end)
 }
 
 func (p c09P) name() string {
@@ -36,7 +37,7 @@ func (p c09P) name() string {
 	for _, kv := range []struct {
 		on bool
 		s  string
-	}{{p.Cancel, "cancel"}, {p.PeerCall, "peer-call-id-1"}, {p.NoteWaits, "notification-awaits-callback"}, {p.Stop, "stop"}, {p.Notify, "notify"}, {p.AfterStop, "after-stop"}, {p.HandlerCB, "handler-callback"}} {
+	}{{p.Cancel, "cancel"}, {p.PeerCall, "peer-call-id-1"}, {p.NoteWaits, "notification-awaits-callback"}, {p.Stop, "stop"}, {p.Notify, "notify"}, {p.AfterStop, "after-stop"}, {p.HandlerCB, "handler-callback"}, {p.BgCtx, "background-ctx"}} {
 		if kv.on {
 			f = append(f, kv.s)
 		}
@@ -84,6 +85,9 @@ func c09Scenario(p c09P, b Bounds) *Scenario {
 				cancels := make([]context.CancelFunc, p.N)
 				for k := 0; k < p.N; k++ {
 					ctxs[k], cancels[k] = context.WithCancel(context.Background())
+					if p.BgCtx {
+						ctxs[k] = context.Background()
+					}
 				}
 				for k := 0; k < p.N; k++ {
 					k := k
@@ -388,7 +392,7 @@ func c09Check(p c09P, x *vs.Exec) []Viol {
 				continue
 			}
 			// a response
-			if n, mine := ownCalls[m.ID()]; mine && m.Has("result") && n == 0 {
+			if n, mine := ownCalls[m.ID()]; mine && (m.Has("result") || p.Stop) && n == 0 {
 				ownCalls[m.ID()] = 1
 				continue
 			}
@@ -468,6 +472,10 @@ func c09Scenarios(tier string) []*Scenario {
 	add(c09P{Push: true, N: 0, Script: "inorder", HandlerCB: true}, b1)
 	add(c09P{Push: true, N: 1, Script: "inorder", Stop: true, AfterStop: true}, b2)
 	add(c09P{Push: true, N: 1, Script: "none", Stop: true}, b1)
+	add(c09P{Push: true, N: 1, Script: "none", Stop: true, BgCtx: true}, b1)
+	add(c09P{Push: true, N: 1, Script: "inorder", BgCtx: true}, b1)
+	add(c09P{Push: true, N: 0, Script: "none", NoteWaits: true, Stop: true}, b2)
+	add(c09P{Push: true, N: 0, Script: "none", HandlerCB: true, Stop: true}, b2)
 	add(c09P{Push: true, N: 1, Script: "inorder", Notify: true}, b2)
 	add(c09P{Push: true, N: 0, Script: "none", Notify: true, AfterStop: true}, b1)
 	add(c09P{Push: false, N: 1, Script: "none", Notify: true, AfterStop: true}, b1)
